@@ -362,8 +362,20 @@ fn classify(rule: &str, input: &str, what: &str) -> String {
                 while j < b.len() && (b[j].is_ascii_digit() || b[j] == b'.') {
                     j += 1;
                 }
-                if j > i + 1 && j < b.len() && b[j] == b'*' {
+                if j > i + 1 && j < b.len() && (b[j] == b'*' || b[j] == b'~') {
                     return format!("{rule}_negative_number_with_prefix_star");
+                }
+            }
+        }
+        // an IN set that is empty but holds whitespace, or a tab between IN and '['
+        for (p, _) in input.match_indices("IN") {
+            let rest = &input[p + 2..];
+            let r2 = rest.trim_start();
+            if let Some(inner) = r2.strip_prefix('[') {
+                let tabbed = rest.len() != r2.len() && rest[..rest.len() - r2.len()].contains('\t');
+                let t = inner.trim_start();
+                if (t.len() < inner.len() && t.starts_with(']')) || tabbed {
+                    return format!("{rule}_in_set_whitespace");
                 }
             }
         }
